@@ -8,8 +8,8 @@ def run(tier):
     vd = common.Verdict(PID, tier)
     wd = common.scratch(PID)
     bdir = common.build("plain")
-    fams = [("altor", 3), ("subif", 3), ("fmt", 3), ("refeed", 3), ("closure", 3)] if tier == "quick" \
-        else [("altor", 3), ("subif", 3), ("fmt", 3), ("refeed", 4), ("closure", 3), ("names", 3)]
+    fams = [("altor", 3), ("subif", 3), ("fmt", 3), ("refeed", 3), ("closure", 3), ("scale", 1)] if tier == "quick" \
+        else [("altor", 3), ("subif", 3), ("fmt", 3), ("refeed", 4), ("closure", 3), ("names", 3), ("scale", 1)]
     total = 0
     # mechanism layer (tla/Engine.tla) refines the meaning layer, exhaustively
     mc = [("altor", 3), ("refeed", 2)] if tier == "quick" else [("altor", 3), ("subif", 3), ("fmt", 3), ("refeed", 3)]
